@@ -399,7 +399,7 @@ harness!(none, 8, c09_freq_m2, freq_body::<2>());
 harness!(none, 8, c09_freq_validation_m2, freq_validation_body::<2>());
 //@ C09 thorough 10800 to_weight + to_scoring (one-step == two-step) + bases 10 and 3, 1 row, symbolic counts / pseudocount / background
 log_harness!(8, c09_weight_score_m1, weight_score_body::<1>());
-//@ C09 thorough 10800 WeightMatrix::rescale, symbolic old/new backgrounds
+//@ C09 quick 800 WeightMatrix::rescale, symbolic old/new backgrounds
 log_harness!(8, c09_rescale, rescale_body());
 //@ C09 quick 800 min_score <= score_position <= max_score, 2 rows, cells k/8 or +-3e38, wildcard-free window
 harness!(none, 8, c09_minmax_m2, minmax_body::<2>());
